@@ -170,6 +170,24 @@ theorem spam_th_other (n : Nat) (s : Sys) (t t2 : Nat) (hne : t2 ≠ t) :
 theorem Sys.finishCycle_th (s : Sys) (kept : List (Nat × Ring Cmd)) (buf buf2 : List Cmd) (t2 : Nat) :
     (s.finishCycle kept buf buf2).1.th t2 = s.th t2 := rfl
 
+theorem Sys.noteParked_threads (s : Sys) (t cid : Nat) : (s.noteParked t cid).threads = s.threads := by
+  unfold Sys.noteParked
+  split <;> rfl
+
+theorem Sys.noteParked_th (s : Sys) (t cid t2 : Nat) : (s.noteParked t cid).th t2 = s.th t2 := by
+  unfold Sys.noteParked
+  split <;> rfl
+
+theorem Sys.finishCycleP_threads (s : Sys) (kept : List (Nat × Ring Cmd)) (buf buf2 : List Cmd) :
+    (s.finishCycleP kept buf buf2).1.threads = s.threads := by
+  unfold Sys.finishCycleP
+  split <;> rfl
+
+theorem Sys.finishCycleP_th (s : Sys) (kept : List (Nat × Ring Cmd)) (buf buf2 : List Cmd) (t2 : Nat) :
+    (s.finishCycleP kept buf buf2).1.th t2 = s.th t2 := by
+  unfold Sys.finishCycleP
+  split <;> rfl
+
 theorem CycState.afterFirst_cases (cs : CycState) :
     cs.afterFirst = ({ cs with phase := .atReport }, "report") ∨
     cs.afterFirst = ({ cs with phase := .atRx2, todo2 := cs.kept.map (·.1) }, "rx2") := by
@@ -184,7 +202,7 @@ theorem Sys.cycStep_threads (s : Sys) : s.cycStep.1.threads = s.threads := by
   split
   · rfl
   · split
-    · rfl
+    · exact Sys.finishCycleP_threads _ _ _ _
     · split
       · rfl
       · dsimp only
@@ -226,6 +244,20 @@ theorem Sys.cycStep_obs (s : Sys) :
 theorem Sys.cycStep_th (s : Sys) (t2 : Nat) : s.cycStep.1.th t2 = s.th t2 := by
   unfold Sys.th
   rw [Sys.cycStep_threads]
+
+/-- what processing leaves alone -/
+theorem Sys.finishCycleP_fields (s : Sys) (kept : List (Nat × Ring Cmd)) (buf buf2 : List Cmd) :
+    (s.finishCycleP kept buf buf2).1.cyc = none ∧ (s.finishCycleP kept buf buf2).1.rxs = kept ∧
+    (∀ t, (s.finishCycleP kept buf buf2).1.th t = s.th t) ∧
+    (s.finishCycleP kept buf buf2).1.g.acceptedBy = s.g.acceptedBy ∧
+    (s.finishCycleP kept buf buf2).1.g.drainedBy = s.g.drainedBy := by
+  unfold Sys.finishCycleP Sys.finishCycle
+  dsimp only [Sys.withG]
+  cases s.coll.hasReporter <;> exact ⟨rfl, rfl, fun _ => rfl, rfl, rfl⟩
+
+theorem Sys.cycle_th (s : Sys) (t2 : Nat) : s.cycle.1.th t2 = s.th t2 := by
+  unfold Sys.cycle
+  exact Sys.finishCycleP_th _ _ _ _ t2
 
 theorem Sys.cycBegin_th (s : Sys) (t2 : Nat) : s.cycBegin.1.th t2 = s.th t2 := by
   unfold Sys.cycBegin
@@ -424,7 +456,8 @@ theorem exec_th_other (s : Sys) (t t2 : Nat) (op : Op) (hne : t2 ≠ t) : (exec 
     · rfl
     · rfl
     · split
-      · exact Sys.sendCmd_th_other _ _ _ _ _ hne
+      · rw [Sys.noteParked_th]
+        exact Sys.sendCmd_th_other _ _ _ _ _ hne
       · rfl
   | drop v =>
     simp only [exec]
@@ -477,8 +510,8 @@ theorem exec_th_other (s : Sys) (t t2 : Nat) (op : Op) (hne : t2 ≠ t) : (exec 
   | ctxOf v => simp only [exec]; split <;> rfl
   | ctxLocal => simp only [exec]; split <;> rfl
   | toRecords x tr sp => simp only [exec]; split <;> rfl
-  | cycle => simp only [exec]; split <;> rfl
-  | flush => simp only [exec]; split <;> rfl
+  | cycle => simp only [exec]; split <;> first | rfl | exact Sys.cycle_th s t2
+  | flush => simp only [exec]; split <;> first | rfl | exact Sys.cycle_th s t2
   | cycBegin => exact Sys.cycBegin_th s t2
   | cycStep => exact Sys.cycStep_th s t2
   | stats => simp only [exec]; split <;> rfl
